@@ -38,16 +38,16 @@ PROPS = {
         '2..8 satisfiable ranges (overlapping, adjacent, duplicate, at both ends, open and suffix forms) x entity lengths {300, 1000, 1e5, 2^32+7, 2^63, 2^64-1} x 4 entity header sets (0..3 headers, up to 200-byte values) x with/without matching If-Range x honest chunkings. Non-trivial = a multipart response.' + GEN_NOTE),
     'C07': serve_prop(['body.end', 'body.len'], [],
         'fault enumeration, exhaustive for streams of <= 3 (quick) / 4 (thorough) chunks: every chunk index x {early end, error, Pending then error, Pending then early end, one byte short, one extra byte, empty chunk, Pending, one extra chunk, error after completion} x shapes {200, single 206, multipart part j of n, n <= 3}; plus random faulty streams in mixed requests.' + GEN_NOTE),
-    'C12': serve_prop(['hint0', 'eos0', 'poll.hint', 'poll.eos', 'op.hint', 'op.eos', 'polls', 'ops'], [],
-        'size_hint() and is_end_stream() sampled before the first and after every poll of every body of a mixed request stream, multipart sets, fault scripts and exhaustive small chunkings; and, for streaming_body bodies, after every operation of random write/flush/poll histories with and without abort / body drop, raw and gzip.' + GEN_NOTE),
+    'C12': serve_prop(['hint0', 'eos0', 'poll.hint', 'poll.eos', 'op.hint', 'op.eos', 'polls', 'ops', 'once.hint0', 'once.bytes'], [],
+        'size_hint() and is_end_stream() sampled before the first and after every poll of every body of a mixed request stream, multipart sets, fault scripts and exhaustive small chunkings; Body::empty() and the four Body::from conversions for lengths {0,1,2,255,4096,65537}; and, for streaming_body bodies, after every operation of random write/flush/poll histories with and without abort / body drop, raw and gzip.' + GEN_NOTE),
     'C13': serve_prop(['status.class', 'allow', 'calls.405', 'body.panic'], [],
         'methods (standard and extension tokens) x header values from three streams (grammar-derived, near-miss, arbitrary bytes incl. >= 0x80) x repeated header lines x entity lengths {0,1,...,2^32,2^63,2^64-1} x ETag/mtime presence; panics are caught around serve() and around every poll.' + GEN_NOTE),
     'C14': serve_prop(['status', 'hdr:accept-ranges', 'hdr:etag', 'hdr:date', 'hdr:last-modified', 'hdr:content-type', 'hdr:x-*', 'hdr:content-language'], [],
         'two-request histories: GET (plain / single range / several ranges), then one request per non-empty subset of the validators the first response actually served (If-None-Match, If-Match, If-Range + Range, If-Modified-Since, If-Unmodified-Since) x ETag {absent, strong, weak, with comma} x mtime {absent, epoch, whole second, +1 ms, +1 ns, 1 ns before the next second, 3 s ago, one day ahead} x 4 entity header sets.' + GEN_NOTE),
     'C15': serve_prop(['status', 'hdr:*', 'calls', 'hint0', 'body.len', 'body.end'], [],
         'every GET/HEAD request of a broad mix (mixed requests, multipart sets, If-Range product, conditional product) executed with GET and with HEAD; the twins are diffed by the harness (status, headers apart from Date, entity reads, body bytes) and each is compared with the model.' + GEN_NOTE),
-    'C20': serve_prop(['body.after', 'body.panic'], [],
-        'every body polled 1..4 more times after each kind of terminal event (clean end, entity error, too short, too long) at every fault position of the C07 enumeration, plus mixed requests with faulty fused streams and multipart sets.' + GEN_NOTE),
+    'C20': serve_prop(['body.after', 'body.panic', 'once.bytes'], [],
+        'every body polled 1..4 more times after each kind of terminal event (clean end, entity error, too short, too long) at every fault position of the C07 enumeration, plus mixed requests with faulty fused streams and multipart sets, and Body::empty() / Body::from bodies polled up to 5 times.' + GEN_NOTE),
 }
 
 PROPS['C16'] = dict(engine='negot', fields=['result'], trivial_tags=['absent', 'false:unparseable', 'false:non-ascii', 'false'],
